@@ -20,4 +20,18 @@ theorem blockOfRow_idx (F : Residual) (theta tinit : Rat) (par : List Rat) (k nc
           (slice u ((sliceIdx k nc).getD 3 (0, 0)).1 ((sliceIdx k nc).getD 3 (0, 0)).2)
           (u.getD (timeIdx k nc).1 0) (u.getD (timeIdx k nc).2 0) := rfl
 
+/-- `stateEntry` puts the interpolant of a variable with its own time stamps into the columns
+    listed by `ownCols`: `[:-1]` into the first, `[1:]` into the second -/
+theorem stateEntry_ownCols (s : Sys) (X : Vec) (idx : Nat → Nat → Nat) (flat : List Rat) (i v : Nat)
+    (o : Own) (hv : v < s.k) (h : s.own v = some o) :
+    stateEntry s X idx flat i ((ownCols s.k v).getD 0 (0, 0)).1
+        = (interpOwnAll X (idx v) (s.nom v) o s.tsL).dropLast.getD i 0
+    ∧ stateEntry s X idx flat i ((ownCols s.k v).getD 1 (0, 0)).1
+        = (interpOwnAll X (idx v) (s.nom v) o s.tsL).tail.getD i 0 := by
+  have h1 : ¬ (s.k + v < s.k) := by omega
+  have h2 : s.k + v - s.k = v := by omega
+  constructor
+  · simp [stateEntry, ownCols, hv, h]
+  · simp [stateEntry, ownCols, h1, h2, h]
+
 end RtcVerif.C01
